@@ -528,3 +528,21 @@ def engine_differential(tier, seed):
     for m in st['mismatches']:
         col.violation('pyvc.executor_differs_from_cpython', m['class'], m['edge_removal'], [['add'] + c for c in m['history']], '; '.join(m['differences']))
     return col.result(bound='<=4 calls per history, 3 nodes, instants -2..6')
+
+
+def query_executor_differential(tier, seed):
+    """verifier self-test for the query constructs (rows, filtered comprehensions evaluated for a generic element, bags, static unrolling):
+    on concrete states the value the symbolic executor computes for has_interaction, the neighbour listings, nodes(t),
+    number_of_interactions(u, v, t) and interactions_per_snapshots(t) - every call INLINED, no callee contract - must be the value
+    CPython returns (CPython's behaviour has to be among the executor's paths)."""
+    from pyvc.differential import query_differential
+    st = query_differential(20 if tier == 'quick' else 400, seed + 11)
+    col = Collector('verifier self-test: seeded random histories (both classes, both modes, <=4 calls, instants -2..6); for each final graph two '
+                    'random argument lists per query; the executor runs on the concrete abstraction of the real graph, every feasible path is '
+                    'compared with the value / exception class of the real call; non-trivial = calls inside the executor subset')
+    col.evaluations = st['calls']
+    col.distinct = set(range(st['calls'] - st['undecided']))
+    col.samples = [{'calls_compared': st['calls'], 'raising_calls_among_them': st['raise'], 'outside_the_subset': st['undecided']}]
+    for m in st['mismatches']:
+        col.violation('pyvc.executor_differs_from_cpython', m['class'], m['edge_removal'], [['add'] + c for c in m['history']] + [m['call']], '; '.join(m['differences']))
+    return col.result(bound='<=4 calls per history, 3 nodes + one unknown node, instants -3..8')
